@@ -114,8 +114,8 @@ UNITS["C03"] = [
 
 UNITS["C10"] = [
     dict(kind="verus", name="c10_ingest", template="specs/c10_ingest.vrs",
-         under_contract=["frag_suppress", "frag_drop_oldest"],
-         vacuity=["frag_suppress", "frag_drop_oldest"],
+         under_contract=["frag_suppress", "frag_drop_oldest", "frag_cache_insert", "frag_cleared_decision"],
+         vacuity=["frag_suppress", "frag_drop_oldest", "frag_cache_insert", "frag_cleared_decision"],
          assumptions=["fragments of the tokio::select! ingest loop wrapped as functions; let-chains desugared; `continue` -> return Exit::Continue",
                       "IndexMap / VecDeque / Iterator::all replaced by contract stand-ins that keep the real closures"]),
 ]
